@@ -105,7 +105,21 @@ def _c05_runs(tier, seed, replay):
     return ([["tree", "--seed", S(seed, 10 + i), "--n", "90", "--maxlen", "80"] for i in range(8)]
             + [["tree", "--seed", S(seed, 30 + i), "--n", "12", "--maxlen", str(m)] for i, m in enumerate([300, 600, 1100, 2100])])
 
+def _c06_runs(tier, seed, replay):
+    if tier == "quick":
+        return [["layout", "--seed", S(seed, i), "--n", "14", "--maxops", "12"] for i in range(1, 5)]
+    return [["layout", "--seed", S(seed, 10 + i), "--n", "80", "--maxops", "16"] for i in range(12)]
+
 PROPS = {
+    "C06": dict(
+        theorems=["HC.C06.frame", "HC.C06.header_round_trip", "HC.C06.entry_round_trip", "HC.C06.entries_read_back",
+                  "HC.C06.read_write", "HC.C06.bitfield_exact"],
+        bridge_modules=["HC.Bridge.Oplog", "HC.Bridge.Stores"], bridging=OPLOG_BRIDGE + STORES_BRIDGE,
+        runs=_c06_runs,
+        partial="proved: frame/header/entry round trips, read-back of any entry region, Oplog::open on any two-valid-slot file laid out by the JS rules. Single-slot files, bitfield/tree/data stores and the interoperability hashes are covered by the run.",
+        rule="(1) the five-step interoperability scenario of tests/js_interop.rs executed by the crate and by the model; SHA-256 of the four stores after each step compared with the golden constants read from that test file; (2) after every mutating operation of writer and replica histories the raw bytes of the four real stores are handed to the Lean reader, whose reconstruction is compared with what the API reports; (3) every final storage is re-encoded with an independent encoder as {header in slot 1 only, header in slot 0 only, stale entries appended, trailing garbage, trailing zero leader, last entry flagged partial} and opened by the crate and the model",
+        trusted=LOG_TRUSTED + ["the golden hashes are trusted as certified against the JavaScript implementation (the JS side cannot be run here)"],
+    ),
     "C05": dict(
         theorems=["HC.C05.nodes_eq_ref", "HC.C05.batch_roots", "HC.C05.roots_determined", "HC.C05.commit_keeps", "HC.C05.treeOK_empty",
                   "HC.C05.batch_independent", "HC.C05.root_hash_and_signature", "HC.C05.signature_verifies"],
